@@ -23,6 +23,9 @@ static int v_rec(void *up, void *data) { if (g_cb_n < V_KSTASH + 2) g_cb_seen[g_
 void call_pubsub_cb(m_mod_t *mod, m_queue_t *evts) {      /* records the batch in order, then releases it like the real one */
     g_cb_calls++;
     V_CHECK("C16.single-invocation-with-the-unstashed-events", mod == &g_modobj);
+    /* a handler may stash again during this invocation: that appends to mod->stashed, so the batch it is handed must be a queue of its own --
+     * were it the live stash, the re-stashed event would be delivered and released with it instead of being retained */
+    V_CHECK("C16.delivered-batch-is-detached-from-the-live-stash", evts != g_modobj.stashed);
     m_queue_iterate(evts, v_rec, NULL);
     m_queue_free(&evts);
 }
